@@ -300,10 +300,12 @@ expect_bigint_v = Fn(FE, "expect_bigint", impl="Value", slot="expr", ret="res", 
                    ] + VLOUD)
 expect_error_or_usize_v = Fn(FE, "expect_error_or_usize", impl="Value", slot="expr", ret="res", key="Value::expect_error_or_usize", props=["C19", "C03"],
                    ensures=VLOUD + [C("shape", "res is Ok ==> res->Ok_0 == self && (self is Unknown || self is FailedConstraint || (self is Integer && 0 <= self->Integer_0.val() <= usize::MAX))", ["C19"])])
-to_bigint_stub = Fn(FE, "to_bigint", impl="ExprString", slot="expr", mode="stub", ret="res", key="ExprString::to_bigint", ensures=[])
+to_bigint_stub = Fn(FE, "to_bigint", impl="ExprString", slot="expr", mode="stub", ret="res", key="ExprString::to_bigint", ensures=[
+    C("the_integer_of_the_string", "res == str_bigint(*self)")])
 get_bigint_v = Fn(FE, "get_bigint", impl="Value", slot="expr", ret="res", key="Value::get_bigint", props=["C03"],
                   ensures=[C("some_iff_numeric", "res is Some <==> (self is Integer || self is String)", ["C03"]),
-                           C("integer_value", "self is Integer ==> res->0.val() == self->Integer_0.val()", ["C03"])],
+                           C("integer_value", "self is Integer ==> res->0.val() == self->Integer_0.val()", ["C03"]),
+                           C("the_number_itself", "res is Some ==> res->0 == num_of(*self)", ["C05"])],
                   rewrites=[Rewrite(r"&Value::(\w+)\(ref (\w+)\)", r"Value::\1(\2)", count=None, regex=True, rule="R20",
                                     why="explicit reference patterns `&V(ref x)` crash the installed Verus (panic in pattern lowering); written in the equivalent default-binding-mode form `V(x)` (x is bound by reference either way)")])
 value_verified = [expect_usize, expect_nonzero_usize, expect_bigint_v, expect_error_or_usize_v, to_bigint_stub, get_bigint_v]
